@@ -4,6 +4,7 @@ CONSTANTS
   MaxEnv = 16384
   Nums = {1, 5, 6, 7, 8, 9, 10, 11, 12, 13}
   MaxFields = 6
+  Fanout = 2
   ExportMin = 3
   Broken = FALSE
 INVARIANTS Equiv NeverDowngraded OnlyListed Emit
